@@ -289,6 +289,10 @@ impl Searcher {
                         line,
                     });
 
+                    // From here on there is a move to play, so the search may be interrupted
+                    // at any point. The first iteration always runs to completion
+                    token.arm();
+
                     // The cancellation token is otherwise only polled every few thousand nodes
                     // inside of an iteration. Iterations that are cheaper than that (positions
                     // with very few reachable states) would never see a stop request at all
@@ -420,7 +424,15 @@ impl Searcher {
         // here. In reality, we're probably about to lose our queen for that pawn, so
         // we need to exaust all captures in the current position before we evaluate it
         if current_depth >= max_depth {
-            return Self::quiescence_search(game_state, evaluator, current_depth, alpha, beta);
+            return Self::quiescence_search(
+                game_state,
+                evaluator,
+                token,
+                current_depth,
+                alpha,
+                beta,
+                nodes_searched,
+            );
         }
 
         let mut evaluation_type = EvaluationKind::UpperBound;
@@ -550,12 +562,22 @@ impl Searcher {
     fn quiescence_search(
         game_state: &State,
         evaluator: &eval::Evaluator,
+        token: &CancellationToken,
         depth: usize,
         alpha: eval::Evaluation,
         beta: eval::Evaluation,
+        nodes_searched: &mut usize,
     ) -> Result<eval::Evaluation, SearchInterrupt> {
         #[cfg(weechess_verif)]
         verif::on_quiescence_node();
+
+        // Capture sequences can be very long in messy positions, so these are nodes like any
+        // other: count them and give the search a chance to notice that it has been cancelled
+        *nodes_searched += 1;
+        if *nodes_searched % 10000 == 0 && token.is_cancelled() {
+            return Err(SearchInterrupt);
+        }
+
         let mut buffer = MoveGenerationBuffer::new();
         MoveGenerator::compute_legal_moves_into(&game_state, &mut buffer);
 
@@ -601,8 +623,15 @@ impl Searcher {
                 continue;
             }
 
-            let evaluation =
-                -Self::quiescence_search(new_state, evaluator, depth + 1, -beta, -alpha)?;
+            let evaluation = -Self::quiescence_search(
+                new_state,
+                evaluator,
+                token,
+                depth + 1,
+                -beta,
+                -alpha,
+                nodes_searched,
+            )?;
             if evaluation >= beta {
                 return Ok(beta);
             }
@@ -936,6 +965,7 @@ pub struct SearchArtifact {
 #[derive(Clone)]
 struct CancellationToken {
     cancelled: Arc<AtomicBool>,
+    armed: Arc<AtomicBool>,
     #[cfg(weechess_verif)]
     verif_probe: Option<Arc<verif::CancelProbe>>,
 }
@@ -944,6 +974,7 @@ impl CancellationToken {
     fn new() -> (Self, Self) {
         let token = Self {
             cancelled: Arc::new(AtomicBool::new(false)),
+            armed: Arc::new(AtomicBool::new(false)),
             #[cfg(weechess_verif)]
             verif_probe: None,
         };
@@ -955,8 +986,13 @@ impl CancellationToken {
         self.cancelled.store(true, Ordering::Relaxed);
     }
 
+    /// A cancellation only takes effect once the token has been armed
+    fn arm(&self) {
+        self.armed.store(true, Ordering::Relaxed);
+    }
+
     fn is_cancelled(&self) -> bool {
-        self.cancelled.load(Ordering::Relaxed)
+        self.armed.load(Ordering::Relaxed) && self.cancelled.load(Ordering::Relaxed)
     }
 }
 
